@@ -271,6 +271,30 @@ func gen(seed uint64, tier string) {
 			}
 		}
 	}
+	// histories: a window of Encode results is kept and re-verified after the whole batch (a result must
+	// not alias state that a later call overwrites); one batch = one line so that a replay reproduces it
+	nb := 60
+	if tier == "thorough" {
+		nb = 1500
+	}
+	small := cfg{}
+	for i := 0; i < nb; i++ {
+		k := r.Range(2, 8)
+		fmt.Fprintf(out, "batch %d", k)
+		for j := 0; j < k; j++ {
+			var g geom.Geom
+			switch {
+			case i%5 == 4 && j == 0:
+				g = wide(r, 1+r.Intn(4), 0, []int{65, 129}[r.Intn(2)]) // one long text in the window
+			case j%3 == 2:
+				g = geom.Point{X: float64(r.Range(-9, 9)), Y: coord(r, false)}
+			default:
+				g = small.geom(r, r.Intn(5))
+			}
+			fmt.Fprintf(out, " %s", vproto.GeomToks(g))
+		}
+		fmt.Fprintln(out)
+	}
 	// cross-validation of the driver's exact decimal->binary64 conversion (spec-side component)
 	// against strconv.ParseFloat on literals that are NOT shortest renderings: random digit strings,
 	// exact midpoints between adjacent doubles (ties-to-even) and their neighbours
@@ -409,6 +433,29 @@ func impl() {
 				} else {
 					res = "ok x" + hex.EncodeToString(buf)
 				}
+			case "batch":
+				n := p.Int()
+				kept := make([][]byte, n)   // the slices exactly as Encode returned them
+				copies := make([]string, n) // immediate copies
+				errs := make([]error, n)
+				for i := 0; i < n; i++ {
+					g := p.Geom()
+					kept[i], errs[i] = wkt.Encode(g)
+					copies[i] = string(kept[i])
+				}
+				// late check: report what the kept slices hold NOW, after the whole batch
+				var b strings.Builder
+				for i := 0; i < n; i++ {
+					if i > 0 {
+						b.WriteString(" ; ")
+					}
+					if errs[i] != nil {
+						b.WriteString("err")
+					} else {
+						b.WriteString("ok x" + hex.EncodeToString([]byte(copies[i])) + " x" + hex.EncodeToString(kept[i]))
+					}
+				}
+				res = b.String()
 			case "num":
 				f, err := strconv.ParseFloat(p.Next(), 64)
 				if err != nil && math.IsInf(f, 0) {
